@@ -16,7 +16,10 @@
 (***************************************************************************)
 EXTENDS Integers, FiniteSets, TLC, Json
 
-Sits == {"plain", "locked", "locked2", "funding", "settle"}
+Sits == {"plain", "locked", "locked2", "funding", "settle", "settle2", "app"}
+(* "settle2": as "settle", with a second sub-channel (3/3) still open and locked in the parent;                       *)
+(* "app":     a plain channel 10/10 running the payment app (money flows only from the actor to the others)         *)
+AutoSits == {"funding", "settle", "settle2"}
 
 (* the honest message of a situation *)
 Base(sit) ==
@@ -27,17 +30,19 @@ Base(sit) ==
    sum |-> "kept",         \* "kept" | "plus" | "negative"
    actor |-> "sender",     \* "sender" | "me" | "oob"
    locked |-> "same",      \* ordinary update: "same" | "id" | "amount" | "imapentry" | "imaplen" | "added" | "removed"
-   pay |-> IF sit \in {"funding", "settle"} THEN "none" ELSE "tome",   \* ordinary: "tome" | "topeer" (sum-preserving, the peer takes)
-   fund |-> IF sit \in {"funding", "settle"} THEN "exact" ELSE "na"]
+   pay |-> IF sit \in AutoSits THEN "none" ELSE "tome",   \* ordinary: "tome" | "topeer" (sum-preserving, the peer takes)
+   fund |-> IF sit \in AutoSits THEN "exact" ELSE "na"]
        \* funding update: "exact" | "onlyme" | "onlypeer" | "nobody" | "otherid" | "otheramount" | "withimap"
        \* settlement update: "exact" | "stale" (credits computed from the parent balances before the last parent
-       \*   update: rolls it back) | "swapped" (credits the wrong parties) | "keeplocked"
+       \*   update: rolls it back) | "swapped" (credits the wrong parties) | "keeplocked" |
+       \*   "skim" (settle2: the peer credits itself one unit more, taken out of the OTHER sub-channel's sub-allocation)
 
 Generic(m) == m.sig = "valid" /\ m.ver = 1 /\ m.id /\ m.sum = "kept"
 Acceptable(m) ==
   /\ Generic(m)
   /\ IF m.fund = "na"
-     THEN m.actor = "sender" /\ m.locked = "same"    \* ordinary update: actor = sender, locked sub-allocations untouched
+     THEN /\ m.actor = "sender" /\ m.locked = "same"    \* ordinary update: actor = sender, locked sub-allocations untouched
+          /\ (m.sit = "app" => m.pay = "tome")          \* valid successor under the payment app: only the actor pays
      ELSE /\ m.actor \in {"sender", "me"}            \* funding: any existing participant as actor (the property does not
           /\ m.fund = "exact" /\ m.locked = "same"   \*   name the actor); exactly that sub-allocation, everybody debited its own balance
 
@@ -49,9 +54,13 @@ Mutants(sit) ==
   \cup { <<"id", [b EXCEPT !.id = FALSE]>> }
   \cup { <<"sum", [b EXCEPT !.sum = x]>> : x \in {"plus", "negative"} }
   \cup { <<"actor", [b EXCEPT !.actor = x]>> : x \in {"me", "oob"} }
-  \cup (IF sit \notin {"funding", "settle"} THEN { <<"pay", [b EXCEPT !.pay = "topeer"]>> } ELSE {})
+  \cup (IF sit \notin AutoSits THEN { <<"pay", [b EXCEPT !.pay = "topeer"]>> } ELSE {})
+  \* the peer names the honest client as actor of a payment from the honest client to the peer: fine for an app that only
+  \* looks at the claimed actor
+  \cup (IF sit \in {"plain", "app"} THEN { <<"actortheft", [b EXCEPT !.actor = "me", !.pay = "topeer"]>> } ELSE {})
   \cup (IF sit = "locked2" THEN { <<"locked", [b EXCEPT !.locked = x]>> : x \in {"dup", "swap", "removed"} } ELSE {})
-  \cup (IF sit = "settle" THEN { <<"fund", [b EXCEPT !.fund = x]>> : x \in {"stale", "swapped", "keeplocked"} } ELSE {})
+  \cup (IF sit \in {"settle", "settle2"} THEN { <<"fund", [b EXCEPT !.fund = x]>> : x \in {"stale", "swapped", "keeplocked"} } ELSE {})
+  \cup (IF sit = "settle2" THEN { <<"fund", [b EXCEPT !.fund = "skim"]>> } ELSE {})
   \cup (IF sit = "locked"
         THEN { <<"locked", [b EXCEPT !.locked = x]>> : x \in {"id", "amount", "imapentry", "imaplen", "added", "removed"} }
         ELSE {})
@@ -62,7 +71,7 @@ Mutants(sit) ==
 
 ASSUME \A s \in Sits : Acceptable(Base(s))
 ASSUME \A s \in Sits : \A x \in Mutants(s) :
-          (x[1] \notin {"none", "pay"} /\ ~(s \in {"funding", "settle"} /\ x[1] = "actor" /\ x[2].actor = "me")) => ~Acceptable(x[2])
+          (x[1] \notin {"none", "pay"} /\ ~(s \in AutoSits /\ x[1] = "actor" /\ x[2].actor = "me")) => ~Acceptable(x[2])
 (* a sum-preserving payment to the peer is a valid update: whether to sign it is the user's decision *)
 ASSUME Acceptable([Base("plain") EXCEPT !.pay = "topeer"])
 
